@@ -9,12 +9,12 @@ cd "$wt" || exit 1
 export CARGO_TARGET_DIR="$wt/target" CARGO_NET_OFFLINE=true
 git diff > "$out/patch.diff"
 [ -s "$out/patch.diff" ] || { echo "empty patch"; exit 1; }
-lc=$(echo "$pid" | tr 'A-Z' 'a-z')
+lc=${4:-$(echo "$pid" | tr 'A-Z' 'a-z')}
 demo=""; kind=""
 if [ -f "examples/demo_$lc.rs" ]; then demo="examples/demo_$lc.rs"; kind=rs; cp "$demo" "$out/"; fi
 if [ -f "demo_$lc.sh" ]; then demo="demo_$lc.sh"; kind=sh; cp "$demo" "$out/"; fi
 [ -f SEED_NOTES.md ] && cp SEED_NOTES.md "$out/"
-rundemo() { if [ "$kind" = rs ]; then cargo run -q --offline --example "demo_$lc" >/tmp/demo_out.$$ 2>&1; else bash "$demo" >/tmp/demo_out.$$ 2>&1; fi; }
+rundemo() { if [ "$kind" = rs ]; then cargo run -q --offline --example "demo_$lc" >/tmp/demo_out.$$ 2>&1; else cargo build -q --offline 2>/dev/null; bash "$demo" >/tmp/demo_out.$$ 2>&1; fi; }
 echo "== tests with change"; t=$(cargo test --workspace --no-fail-fast --offline 2>&1 | grep -E "^test result" | head -1); echo "$t"
 cargo build -q --offline --features verif 2>&1 | tail -2
 echo "== demo with change (expect non-zero)"; rundemo; with=$?; tail -3 /tmp/demo_out.$$
